@@ -48,6 +48,19 @@ type Ctx struct {
 	natMemo         *natInfo
 
 	rep *Report
+
+	// functions a rule resolved by role (by what they take, return and call): never inlined by a normal form
+	roleFns map[string]bool
+}
+
+func (c *Ctx) markRole(fn *ssa.Function) {
+	if fn == nil {
+		return
+	}
+	if c.roleFns == nil {
+		c.roleFns = map[string]bool{}
+	}
+	c.roleFns[fn.Name()] = true
 }
 
 type loadOpts struct {
